@@ -219,6 +219,27 @@ def trace_validate(module, cfg, trace, workdir, env_extra=None, timeout=1200, na
     return ok, distinct, rejected
 
 
+class NdjsonIndex:
+    """random access to the lines of a (possibly huge) ndjson file without loading it"""
+    def __init__(self, path):
+        self.path = path
+        self.offsets = []
+        off = 0
+        with open(path, "rb") as f:
+            for line in f:
+                if line.strip():
+                    self.offsets.append(off)
+                off += len(line)
+
+    def __getitem__(self, i):
+        with open(self.path, "rb") as f:
+            f.seek(self.offsets[i])
+            return json.loads(f.readline())
+
+    def __len__(self):
+        return len(self.offsets)
+
+
 def apalache(module, workdir, name, *args, timeout=900):
     """runs apalache-mc check on spec/<module>.tla; returns True when the outcome is NoError"""
     out = os.path.join(workdir, name + ".apalache.out")
